@@ -116,6 +116,8 @@ class Monitor:
 
     def exceptions(self, ctx, res, calls):
         for j, r in res['results'].items():
+            if r[0] == 'exc' and r[1] == 'CancelledError' and j in res.get('cancelled', []):
+                continue
             if r[0] == 'exc' and r[1] != 'InvalidStateTransition':
                 self.run.add_finding(Finding(f'operation-raised:{r[1]}', f'{calls[j][0]} raised {r[1]}', dict(ctx, calls=[list(c) for c in calls])))
 
@@ -267,7 +269,7 @@ def explore(tmp, state, direction, cfg, calls, mon: Monitor, run: Run, max_nodes
     while stack and nodes < max_nodes:
         ev = stack.pop()
         nodes += 1
-        res = L.run_schedule(tmp, state, direction, cfg, calls, ev, slow_listener=slow_listener)
+        res = L.run_schedule(tmp, state, direction, cfg, calls, ev, slow_listener=slow_listener, cancellable=not slow_listener)
         c2 = dict(ctx, schedule=[list(e) for e in ev])
         if slow_listener:
             mon.listeners(c2, res, calls)
@@ -292,6 +294,25 @@ def explore(tmp, state, direction, cfg, calls, mon: Monitor, run: Run, max_nodes
     if stack:
         run.count('schedule-exploration-truncated')
     return cases
+
+
+def directed(tmp, state, direction, cfg, calls, prefix, mon: Monitor, run: Run, kind):
+    """one schedule: the given prefix, then slow operations / lock hand-overs completed in order until nothing is left"""
+    ctx = {'state': state, 'direction': direction, 'cfg': cfg, 'level': 'state'}
+    ev = list(prefix)
+    for _ in range(24):
+        res = L.run_schedule(tmp, state, direction, cfg, calls, ev)
+        nxt = [e for e in res['enabled'] if e[0] in ('T', 'W')]
+        if not nxt:
+            break
+        ev.append(nxt[0])
+    c2 = dict(ctx, schedule=[list(e) for e in ev])
+    mon.edges(c2, res, calls, concurrent=True)
+    mon.refusals(c2, res, calls)
+    mon.lock(c2, res, calls)
+    mon.exceptions(c2, res, calls)
+    run.case({'state': state, 'dir': direction, 'calls': [c[0] for c in calls], 'schedule': ''.join(e[0] for e in ev)}, kind=kind)
+    return (conc_case_text(state, direction, cfg, calls, ev, res), c2)
 
 
 def natural(tmp, state, direction, cfg, calls, mon: Monitor, manager=False):
@@ -461,11 +482,20 @@ def run(run: Run):
                             calls = [one_call(a), (b, 2, False) if b in ('fail', 'abort') else one_call(b)]
                             cases += explore(tmp, state, direction, cfg, calls, mon, run)
         _t = _mark(run, 'pairs', _t)
-        # (c') the same with a slow first listener and two more listeners (monitors only)
-        slow_cfgs = [CFGS[0]] if run.tier == 'quick' else [CFGS[0], RICH]
+        # (c2) three parties with a cancellation: a slow operation holds the lock, a second call waits for it, one of the two
+        # is cancelled (wait_for timeout / shutdown / a task cancelled by an abort), a third call arrives
         for state in L.STATES:
             for direction in L.DIRS:
-                for cfg in slow_cfgs:
+                for a in ('abort', 'pause'):
+                    for c in L.OPS:
+                        calls = [one_call(a), one_call('queue'), one_call(c)]
+                        for victim in (1, 0):
+                            prefix = [('C', 0), ('S', 0), ('C', 1), ('S', 1), ('X', victim), ('C', 2), ('S', 2)]
+                            cases.append(directed(tmp, state, direction, RICH, calls, prefix, mon, run, 'cancel-3calls'))
+        # (c') the same with a slow first listener and two more listeners (monitors only)
+        for state in L.STATES:
+            for direction in (('DOWNLOAD',) if run.tier == 'quick' else L.DIRS):
+                for cfg in ([CFGS[0]] if (run.tier == 'quick' or direction == 'UPLOAD') else [CFGS[0], RICH]):
                     for a in L.OPS:
                         for b in L.OPS:
                             cases += explore(tmp, state, direction, cfg, [one_call(a), one_call(b)], mon, run, max_nodes=600,
@@ -479,13 +509,13 @@ def run(run: Run):
                             for c in ops3:
                                 calls = [one_call(a), one_call(b), one_call(c)]
                                 cases += explore(tmp, state, direction, CFGS[3] if state in ('QUEUED', 'PAUSED') else RICH, calls, mon, run,
-                                                 max_nodes=400)
+                                                 max_nodes=250)
         _t = _mark(run, 'triples', _t)
         # (d) natural runs
         for state in L.STATES:
             for direction in L.DIRS:
                 for cfg in ((RICH,) if run.tier == 'quick' else (CFGS[0], RICH)):
-                    for a in L.OPS:
+                    for a in (('abort', 'pause', 'queue') if run.tier == 'quick' else L.OPS):
                         for b in L.OPS:
                             cases.append(natural(tmp, state, direction, cfg, [one_call(a), one_call(b)], mon))
                             run.case({'s': state, 'd': direction, 'gather': [a, b], 'rich': cfg is RICH}, kind='gather-state')
